@@ -16,8 +16,10 @@ def register(R):
     R.contract(
         "_IncomingDataReader.readinto",
         params={"read_bio": "MemoryBIOModel"}, result="int",
-        ensures=[("eof-forwarded-to-the-bio", "implies(result == 0, read_bio.eof)", "C09")],
-        raises={"BaseException": [("nothing-consumed", "ghost.IN == old(ghost.IN)", "C10")]},
+        ensures=[("eof-forwarded-to-the-bio", "implies(result == 0, read_bio.eof)", "C09"),
+                 ("the-bio-is-marked-at-end-of-file-only-when-the-transport-ended", "(read_bio.eof == old(read_bio.eof) or ghost.EOF) and implies(old(ghost.EOF), ghost.EOF)", "C09 C10")],
+        raises={"BaseException": [("nothing-consumed", "ghost.IN == old(ghost.IN)", "C10"),
+                                  ("a-failed-or-cancelled-read-does-not-mark-the-end-of-the-stream", "read_bio.eof == old(read_bio.eof) and ghost.EOF == old(ghost.EOF)", "C10 C09")]},
         modifies=["read_bio.eof", "read_bio.pending", "ghost.IN", "ghost.recv_calls", "ghost.EOF", "ghost.io_errors", "self.buffer.data"],
         tags="C09 C10",
     )
@@ -30,7 +32,8 @@ def register(R):
         params={"ssl_object_method": "fn:stubs.async_backend:ssl_method", "args": "tuple[]"},
         result="obj",
         loops={1: {"inv": ["not self.__transport_send_lock.held_by_me", "not self.__transport_recv_lock.held_by_me", "ghost.locks_held == old(ghost.locks_held)",
-                           "ghost.tls_ops_returned == old(ghost.tls_ops_returned)"]}},
+                           "ghost.tls_ops_returned == old(ghost.tls_ops_returned)",
+                           "self._read_bio.eof == old(self._read_bio.eof) or ghost.EOF", "self._write_bio.eof == old(self._write_bio.eof)"]}},
         ensures=[("operation-returned", "ghost.tls_cause == 0", "C09"), ("locks-released", "not self.__transport_send_lock.held_by_me and not self.__transport_recv_lock.held_by_me", "C12")],
         raises={
             "ssl.SSLZeroReturnError": [("only-after-the-peers-close-notify", "ghost.tls_cause == 1", "C09")],
@@ -38,7 +41,9 @@ def register(R):
             "ssl.SSLError": [("other-tls-failure", "ghost.tls_cause == 3 or ghost.tls_cause == 4", "C09")],
             "BaseException": [("locks-released", "not self.__transport_send_lock.held_by_me and not self.__transport_recv_lock.held_by_me", "C12"),
                               ("the-result-of-a-completed-operation-is-never-discarded: a failed or cancelled call has not taken anything out of the SSL object",
-                               "ghost.tls_ops_returned == old(ghost.tls_ops_returned)", "C10")],
+                               "ghost.tls_ops_returned == old(ghost.tls_ops_returned)", "C10"),
+                              ("a-cancelled-or-timed-out-operation-leaves-the-TLS-stream-usable: the BIOs are marked at end-of-file only when the transport ended or the transport / TLS failed",
+                               "typeof(exc, 'OSError') or ((self._read_bio.eof == old(self._read_bio.eof) or ghost.EOF) and self._write_bio.eof == old(self._write_bio.eof))", "C10")],
         },
         requires=[("locks-free", "not self.__transport_send_lock.held_by_me and not self.__transport_recv_lock.held_by_me")],
         modifies=mods,
